@@ -173,6 +173,11 @@ def float_pairs():
             for pat in ("%s * %s", "%s / %s", "%s + %s", "%s - %s", "%s < %s", "%s == %s"):
                 out.append((pat % (f, L), pat % (f, "(%s + 0)" % L)))
                 out.append((pat % (L, f), pat % ("(%s + 0)" % L, f)))
+    # ... and where a whole number is expected (range bounds and steps, counts): the lazy value is accepted or refused
+    # exactly as its eager value is
+    for L in ("3!", "(5!/7)", "(4!/3!)", "C(5,2)", "(C(5,2)/4)", "(3!/4!)", "0!"):
+        for pat in ("1..%s", "%s..20", "range(%s, 9)", "range(1, %s)", "range(1, 30, %s)", "size(1..%s)", "sum(1..%s)"):
+            out.append((pat % L, pat % ("(%s + 0)" % L)))
     return out
 
 
@@ -182,6 +187,8 @@ def run(ctx):
     for (a, b), oa, ob in zip(_fp, _fo[:len(_fp)], _fo[len(_fp):]):
         ga = oa.get("raw") if not oa.get("hung") else "HUNG"
         gb = ob.get("raw") if not ob.get("hung") else "HUNG"
+        if ga != gb and (ga or "").startswith("E:") and (gb or "").startswith("E:") and oa.get("status") == ob.get("status") == 1:
+            continue        # both refused with a diagnosed error: which signature is named in it may differ
         if ga != gb or oa.get("status") != ob.get("status"):
             ctx["report"].violation(dict(kind="lazy-vs-eager-next-to-a-float", op=a.split(" ")[1]),
                                     "C05 fails on the implementation: %s gives %s but the eager %s gives %s" % (a, ga, b, gb),
